@@ -702,27 +702,45 @@ func c12AritySSA(r *Run, cm *callModel) {
 					gKind = true
 				}
 			}
-			// len(node.Arguments) > NumIn is false
-			if isLenArgs(x) && isNumIn(y) && ((bo.Op == token.GTR && !d.truth) || (bo.Op == token.LEQ && d.truth)) {
-				gMany = true
+			// the relation that holds between the two sides on this path, read in both directions
+			// (`fixed > nodeArgsLen` false is `nodeArgsLen >= fixed`)
+			rel := bo.Op
+			if !d.truth {
+				neg := map[token.Token]token.Token{token.LSS: token.GEQ, token.GEQ: token.LSS, token.LEQ: token.GTR, token.GTR: token.LEQ, token.EQL: token.NEQ, token.NEQ: token.EQL}
+				nr, known := neg[rel]
+				if !known {
+					continue
+				}
+				rel = nr
 			}
-			// len(node.Arguments) < NumIn-1 is false
-			if isLenArgs(x) && ((bo.Op == token.LSS && !d.truth) || (bo.Op == token.GEQ && d.truth)) {
-				if sub, ok := y.(*ssa.BinOp); ok && sub.Op == token.SUB && isNumIn(p.resolve(sub.X)) {
-					if cc, ok := p.constOf(sub.Y); ok && constant.Compare(cc, token.EQL, constant.MakeInt64(1)) {
-						gFew = true
+			flip := map[token.Token]token.Token{token.LSS: token.GTR, token.GTR: token.LSS, token.LEQ: token.GEQ, token.GEQ: token.LEQ, token.EQL: token.EQL, token.NEQ: token.NEQ}
+			isNumInMinus1 := func(v ssa.Value) bool {
+				sub, ok := v.(*ssa.BinOp)
+				if !ok || sub.Op != token.SUB || !isNumIn(p.resolve(sub.X)) {
+					return false
+				}
+				cc, ok := p.constOf(sub.Y)
+				return ok && constant.Compare(cc, token.EQL, constant.MakeInt64(1))
+			}
+			for _, o := range [][3]interface{}{{x, y, rel}, {y, x, flip[rel]}} {
+				a, b, rl := o[0].(ssa.Value), o[1].(ssa.Value), o[2].(token.Token)
+				atMost := rl == token.LEQ || rl == token.LSS || rl == token.EQL  // a <= b
+				atLeast := rl == token.GEQ || rl == token.GTR || rl == token.EQL // a >= b
+				// len(node.Arguments) <= NumIn
+				if isLenArgs(a) && isNumIn(b) && atMost {
+					gMany = true
+				}
+				// len(node.Arguments) >= NumIn-1
+				if isLenArgs(a) && isNumInMinus1(b) && atLeast {
+					gFew = true
+				}
+				if isLenVec(a) && isNumIn(b) {
+					if atMost {
+						gPostGT = true
 					}
-				}
-			}
-			if isLenVec(x) && isNumIn(y) {
-				if (bo.Op == token.GTR && !d.truth) || (bo.Op == token.LEQ && d.truth) {
-					gPostGT = true
-				}
-				if (bo.Op == token.LSS && !d.truth) || (bo.Op == token.GEQ && d.truth) {
-					gPostLT = true
-				}
-				if (bo.Op == token.EQL && d.truth) || (bo.Op == token.NEQ && !d.truth) {
-					gPostGT, gPostLT = true, true
+					if atLeast {
+						gPostLT = true
+					}
 				}
 			}
 		}
